@@ -34,14 +34,14 @@ noncomputable def nsAt (e : Env K) (pt : Nat → P K) (i : Nat) : Bool := (jEP e
 
 /-- shift (in half widths, along the edge) of the start corners of edge `k`: negative / positive side -/
 noncomputable def sA0 (e : Env K) (pt : Nat → P K) (k : Nat) : K :=
-  if k = 0 then -capU e.o.startCap else (if nsAt e pt k then -jtau pt (k - 1) else 0)
+  if k = 0 then -capU e.o.startCap else (if nsAt e pt k then -jtau pt (k - 1) else -lamAt e pt k)
 noncomputable def sA1 (e : Env K) (pt : Nat → P K) (k : Nat) : K :=
-  if k = 0 then -capU e.o.startCap else (if psAt e pt k then jtau pt (k - 1) else 0)
+  if k = 0 then -capU e.o.startCap else (if psAt e pt k then jtau pt (k - 1) else -lamAt e pt k)
 /-- shift of the end corners of edge `k` of a polyline with `n` edges -/
 noncomputable def sB0 (e : Env K) (pt : Nat → P K) (n k : Nat) : K :=
-  if k + 1 = n then capU e.o.endCap else (if nsAt e pt (k + 1) then jtau pt k else 0)
+  if k + 1 = n then capU e.o.endCap else (if nsAt e pt (k + 1) then jtau pt k else lamAt e pt (k + 1))
 noncomputable def sB1 (e : Env K) (pt : Nat → P K) (n k : Nat) : K :=
-  if k + 1 = n then capU e.o.endCap else (if psAt e pt (k + 1) then -jtau pt k else 0)
+  if k + 1 = n then capU e.o.endCap else (if psAt e pt (k + 1) then -jtau pt k else lamAt e pt (k + 1))
 
 /-- `|tan(turn/2)|` at the point `i` of a polyline with `n` edges; `0` at the two ends -/
 noncomputable def tauAbs (pt : Nat → P K) (n i : Nat) : K := if i = 0 ∨ n ≤ i then 0 else |jtau pt (i - 1)|
@@ -53,9 +53,6 @@ of numbers the model computes from the input —
 * every edge is longer than the determinant guard `eps` of `Line::intersection`;
 * at every interior point the first guard of `compute_normal` is not taken (`|t0 + t1|² ≥ 1e-4`: no U-turn)
   and the fold test of `compute_join_side_positions_fixed_width` (the model's own) answers "no fold";
-* with `LineJoin::MiterClip` only: no miter exceeds the miter limit (the model's `miter_limit_is_exceeded` answers
-  no at every interior point: the join is then tessellated exactly like a `Miter` join; a CLIPPED `MiterClip`
-  join is not covered by the theorems);
 * every edge is at least `w/2 · (|tan(θ_a/2)| + |tan(θ_b/2)| + 1)` long, `θ_a`, `θ_b` the turn angles at
   its two ends (`0` at a cap): neighbouring joins do not interact. -/
 def Regime (e : Env K) (eps : K) (pt : Nat → P K) (n : Nat) : Prop :=
@@ -64,10 +61,9 @@ def Regime (e : Env K) (eps : K) (pt : Nat → P K) (n : Nat) : Prop :=
   ∧ (∀ i, i < n - 1 → ¬ (eT pt i + eT pt (i + 1)).sqLen < normalEpsilon)
   ∧ (∀ i, i < n - 1 → noFoldAt e (pt i) (pt (i + 1)) (pt (i + 1 + 1)))
   ∧ (∀ i, i < n → e.hwFw * (tauAbs pt n i + tauAbs pt n (i + 1) + 1) ≤ eL pt i)
-  ∧ (∀ i, i < n - 1 → e.o.join = .miterClip → keptAt e (pt i) (pt (i + 1)) (pt (i + 1 + 1)))
 
 noncomputable instance (e : Env K) (eps : K) (pt : Nat → P K) (n : Nat) : Decidable (Regime e eps pt n) := by
-  unfold Regime noFoldAt keptAt; infer_instance
+  unfold Regime noFoldAt; infer_instance
 
 /-- a turn of at most 90° never folds: the model's fold test needs `next_tangent · prev_tangent < 0` -/
 theorem noFoldAt_of_dot_nonneg (e : Env K) (p j n : P K)
@@ -88,8 +84,8 @@ def EdgeQuad (E : P K × P K × P K → Prop) (e : Env K) (pt : Nat → P K) (n 
      pt (k + 1) - (perp (eT pt k)).smul e.hwFw + (eT pt k).smul (e.hwFw * sB0 e pt n k))
 
 /-- the standing hypotheses on the environment: exact arithmetic with the `sqrt` laws, the exact
-`Line::intersection` with guard `eps`, fixed positive width, Bevel, Miter or MiterClip join (for MiterClip the
-regime asks that no miter is clipped), butt or square caps -/
+`Line::intersection` with guard `eps`, fixed positive width, Bevel, Miter or MiterClip join (any miter limit `≥ 1`)
+or Round join, butt, square or round caps (Round join / cap: with the law `cos² + sin² = 1`) -/
 structure CoverHyp (e : Env K) (eps : K) : Prop where
   sqrt_nonneg : ∀ x : K, 0 ≤ x → 0 ≤ Transc.sqrt x
   sqrt_sq : ∀ x : K, 0 ≤ x → Transc.sqrt x * Transc.sqrt x = x
@@ -97,9 +93,28 @@ structure CoverHyp (e : Env K) (eps : K) : Prop where
   eps_nonneg : 0 ≤ eps
   fw : e.o.varWidth = false
   join : e.o.join = .bevel ∨ e.o.join = .miter ∨ e.o.join = .miterClip
-  scap : e.o.startCap ≠ .round
-  ecap : e.o.endCap ≠ .round
+    ∨ (e.o.join = .round ∧ ∀ x : K, Transc.cos x * Transc.cos x + Transc.sin x * Transc.sin x = 1)
+  /-- only for `MiterClip`: `miter_limit ≥ 1` (lyon's `with_miter_limit` asserts it) and the intersection guard below `w/2` -/
+  clip : e.o.join = .miterClip → 1 ≤ e.o.miterLimit ∧ eps < e.hwFw
+  /-- a round cap needs the law `cos² + sin² = 1` (it places the arc vertices on the circle) -/
+  scap : e.o.startCap ≠ .round ∨ ∀ x : K, Transc.cos x * Transc.cos x + Transc.sin x * Transc.sin x = 1
+  ecap : e.o.endCap ≠ .round ∨ ∀ x : K, Transc.cos x * Transc.cos x + Transc.sin x * Transc.sin x = 1
   hw : 0 < e.hwFw
+
+theorem CoverHyp.join4 {e : Env K} {eps : K} (h : CoverHyp e eps) :
+    e.o.join = .bevel ∨ e.o.join = .miter ∨ e.o.join = .miterClip ∨ e.o.join = .round := by
+  rcases h.join with a | a | a | ⟨a, _⟩
+  · exact Or.inl a
+  · exact Or.inr (Or.inl a)
+  · exact Or.inr (Or.inr (Or.inl a))
+  · exact Or.inr (Or.inr (Or.inr a))
+
+theorem CoverHyp.roundOK {e : Env K} {eps : K} (h : CoverHyp e eps) : RoundOK e := by
+  rcases h.join with a | a | a | ⟨_, a⟩
+  · exact Or.inl (by rw [a]; decide)
+  · exact Or.inl (by rw [a]; decide)
+  · exact Or.inl (by rw [a]; decide)
+  · exact Or.inr a
 
 theorem regime_sq {e : Env K} {eps : K} (h : CoverHyp e eps) {pt : Nat → P K} {n : Nat} (hr : Regime e eps pt n)
     (i : Nat) (hi : i < n) : 0 < (pt (i + 1) - pt i).sqLen := by
@@ -112,12 +127,8 @@ theorem regime_sq {e : Env K} {eps : K} (h : CoverHyp e eps) {pt : Nat → P K} 
   rw [← this]; exact mul_pos hpos hpos
 
 theorem regime_jclosed {e : Env K} {eps : K} (h : CoverHyp e eps) {pt : Nat → P K} {n : Nat} (hr : Regime e eps pt n)
-    (k : Nat) (hk : k + 1 < n) : JClosed e pt k (psAt e pt (k + 1)) (nsAt e pt (k + 1)) :=
-  jEP_closed e h.sqrt_nonneg h.sqrt_sq pt k
-    (by rcases h.join with hj | hj | hj
-        · exact Or.inl hj
-        · exact Or.inr (Or.inl hj)
-        · exact Or.inr (Or.inr ⟨hj, hr.2.2.2.2.2 k (by omega) hj⟩))
+    (k : Nat) (hk : k + 1 < n) : JClosed e pt k (psAt e pt (k + 1)) (nsAt e pt (k + 1)) (lamAt e pt (k + 1)) :=
+  jEP_closed e eps h.ix_eq h.eps_nonneg h.sqrt_nonneg h.sqrt_sq pt k h.join4 h.clip h.hw
     (regime_sq h hr k (by omega)) (regime_sq h hr (k + 1) hk)
     (hr.2.2.1 k (by omega)) (hr.2.2.2.1 k (by omega))
 
@@ -137,14 +148,14 @@ theorem edge_quads {e : Env K} {eps : K} (h : CoverHyp e eps) {pt : Nat → P K}
     subst hk0
     obtain ⟨q1, q2⟩ := hE.single rfl
     have hprev : prevNext e pt (0 + 1) = (pt 0 + (perp (eT pt 0)).smul e.hwFw, pt 0 - (perp (eT pt 0)).smul e.hwFw) := rfl
-    obtain ⟨c1, c2⟩ := endCap_closed e eps h.ix_eq h.eps_nonneg h.sqrt_nonneg h.sqrt_sq h.ecap pt 0 (hsq 0 hk)
+    obtain ⟨c1, c2⟩ := endCap_closed e eps h.ix_eq h.eps_nonneg h.sqrt_nonneg h.sqrt_sq pt 0 (hsq 0 hk)
       (hr.2.1 0 hk) hprev
     have hμ : (0 : K) ≤ capShift e.o.endCap e.hwFw := by
       rw [capShift_eq]; exact mul_nonneg (le_of_lt h.hw) (capU_nonneg _)
     have hsec : secondPrev e pt 1 = (pt 1 + (perp (eT pt 0)).smul e.hwFw + (eT pt 0).smul (capShift e.o.endCap e.hwFw),
         pt 1 - (perp (eT pt 0)).smul e.hwFw + (eT pt 0).smul (capShift e.o.endCap e.hwFw)) := by
       unfold secondPrev; rw [if_pos rfl, c1, c2]
-    obtain ⟨d1, d2⟩ := startCap_closed e eps h.ix_eq h.eps_nonneg h.sqrt_nonneg h.sqrt_sq h.scap pt 1 (hsq 0 hk)
+    obtain ⟨d1, d2⟩ := startCap_closed e eps h.ix_eq h.eps_nonneg h.sqrt_nonneg h.sqrt_sq pt 1 (hsq 0 hk)
       (hr.2.1 0 hk) _ hμ hsec
     rw [d1, d2, c1] at q1
     rw [d2, c1, c2] at q2
@@ -160,14 +171,17 @@ theorem edge_quads {e : Env K} {eps : K} (h : CoverHyp e eps) {pt : Nat → P K}
       subst hk0
       obtain ⟨q1, q2⟩ := hE.first hn2
       have J := hJC 0 (by omega)
-      have hsec : secondPrev e pt n = (pt 1 + (perp (eT pt 0)).smul e.hwFw + (eT pt 0).smul 0,
-          pt 1 - (perp (eT pt 0)).smul e.hwFw + (eT pt 0).smul 0) := by
+      have hnn : ∀ b : Bool, (0 : K) ≤ e.hwFw * (if b then 0 else lamAt e pt (0 + 1)) := by
+        intro b; apply mul_nonneg (le_of_lt h.hw); split_ifs
+        · exact le_refl _
+        · exact lamAt_nonneg _ _ _
+      have hsec : secondPrev e pt n = (pt 1 + (perp (eT pt 0)).smul e.hwFw
+            + (eT pt 0).smul (e.hwFw * (if psAt e pt (0 + 1) then 0 else lamAt e pt (0 + 1))),
+          pt 1 - (perp (eT pt 0)).smul e.hwFw
+            + (eT pt 0).smul (e.hwFw * (if nsAt e pt (0 + 1) then 0 else lamAt e pt (0 + 1)))) := by
         unfold secondPrev; rw [if_neg hn1, J.posPrev, J.negPrev]
-        have z : ∀ a : P K, a + (eT pt 0).smul 0 = a := by
-          intro a; apply P.ext' <;> simp only [geom] <;> ring
-        rw [z, z]
-      obtain ⟨d1, d2⟩ := startCap_closed e eps h.ix_eq h.eps_nonneg h.sqrt_nonneg h.sqrt_sq h.scap pt n (hsq 0 hk)
-        (hr.2.1 0 hk) 0 (le_refl _) hsec
+      obtain ⟨d1, d2⟩ := startCap_closedG e eps h.ix_eq h.eps_nonneg h.sqrt_nonneg h.sqrt_sq pt n (hsq 0 hk)
+        (hr.2.1 0 hk) _ _ (hnn _) (hnn _) hsec
       rw [d1, d2, J.sPosPrev] at q1
       rw [d2, J.sPosPrev, J.sNegPrev] at q2
       have hb : ¬ (0 + 1 = n) := by omega
@@ -185,13 +199,23 @@ theorem edge_quads {e : Env K} {eps : K} (h : CoverHyp e eps) {pt : Nat → P K}
         obtain ⟨q1, q2⟩ := hE.last hn2
         have hidx : k' + 1 + 1 - 1 = k' + 1 := rfl
         rw [hidx] at q1 q2
+        have hnp : ∀ b : Bool, e.hwFw * (if b then 0 else -lamAt e pt (k' + 1)) ≤ 0 := by
+          intro b
+          have : (if b then (0 : K) else -lamAt e pt (k' + 1)) ≤ 0 := by
+            split_ifs
+            · exact le_refl _
+            · have := lamAt_nonneg e pt (k' + 1); linarith
+          exact mul_nonpos_of_nonneg_of_nonpos (le_of_lt h.hw) this
         have hprev : prevNext e pt (k' + 1 + 1)
-            = (pt (k' + 1) + (perp (eT pt (k' + 1))).smul e.hwFw, pt (k' + 1) - (perp (eT pt (k' + 1))).smul e.hwFw) := by
+            = (pt (k' + 1) + (perp (eT pt (k' + 1))).smul e.hwFw
+                + (eT pt (k' + 1)).smul (e.hwFw * (if psAt e pt (k' + 1) then 0 else -lamAt e pt (k' + 1))),
+               pt (k' + 1) - (perp (eT pt (k' + 1))).smul e.hwFw
+                + (eT pt (k' + 1)).smul (e.hwFw * (if nsAt e pt (k' + 1) then 0 else -lamAt e pt (k' + 1)))) := by
           unfold prevNext; rw [if_neg (by omega)]
           show ((jEP e pt (k' + 1)).pos.next, (jEP e pt (k' + 1)).neg.next) = _
           rw [Ja.posNext, Ja.negNext]
-        obtain ⟨c1, c2⟩ := endCap_closed e eps h.ix_eq h.eps_nonneg h.sqrt_nonneg h.sqrt_sq h.ecap pt (k' + 1)
-          (hsq _ hk) (hr.2.1 _ hk) hprev
+        obtain ⟨c1, c2⟩ := endCap_closedG e eps h.ix_eq h.eps_nonneg h.sqrt_nonneg h.sqrt_sq pt (k' + 1)
+          (hsq _ hk) (hr.2.1 _ hk) _ _ (hnp _) (hnp _) hprev
         rw [Ja.sNegNext, Ja.sPosNext, c1] at q1
         rw [Ja.sNegNext, c1, c2] at q2
         simp only [sA0, sA1, sB0, sB1, if_true, if_neg ha, Nat.add_sub_cancel]
@@ -218,17 +242,25 @@ structure JointData (E : P K × P K × P K → Prop) (e : Env K) (pt : Nat → P
   hκ : 0 ≤ κ ∧ κ ≤ 1
   hrot : eT pt (k + 1) = (eT pt k).smul c + (perp (eT pt k)).smul (ε * σ)
   tabs : τ = |jtau pt k|
-  loNext : ∀ y, ((1 - ε * y) * (if nsAt e pt (k + 1) then -jtau pt k else 0)
-      + (1 + ε * y) * (if psAt e pt (k + 1) then jtau pt k else 0)) / 2 = τ * ((1 + y) - κ * (1 - y)) / 2
-  hiPrev : ∀ y, ((1 - ε * y) * (if nsAt e pt (k + 1) then jtau pt k else 0)
-      + (1 + ε * y) * (if psAt e pt (k + 1) then -jtau pt k else 0)) / 2 = -(τ * ((1 + y) - κ * (1 - y)) / 2)
+  loNext : ∀ y, ((1 - ε * y) * (if nsAt e pt (k + 1) then -jtau pt k else -lamAt e pt (k + 1))
+      + (1 + ε * y) * (if psAt e pt (k + 1) then jtau pt k else -lamAt e pt (k + 1))) / 2 = τ * ((1 + y) - κ * (1 - y)) / 2
+  hiPrev : ∀ y, ((1 - ε * y) * (if nsAt e pt (k + 1) then jtau pt k else lamAt e pt (k + 1))
+      + (1 + ε * y) * (if psAt e pt (k + 1) then -jtau pt k else lamAt e pt (k + 1))) / 2 = -(τ * ((1 + y) - κ * (1 - y)) / 2)
   tri : κ < 1 → ∀ q, InTri q (pt (k + 1) - (perp (eT pt k)).smul (ε * e.hwFw) + (eT pt k).smul (κ * τ * e.hwFw),
       pt (k + 1) + (perp (eT pt k)).smul (ε * e.hwFw) - (eT pt k).smul (τ * e.hwFw),
       pt (k + 1) - (perp (eT pt (k + 1))).smul (ε * e.hwFw) - (eT pt (k + 1)).smul (κ * τ * e.hwFw)) → Cov E q
 
+/-- `κ = L/τ` with `0 ≤ L ≤ τ`: `κ ∈ [0,1]`, `κ·τ = L` (also for `τ = 0`) -/
+theorem kappa_div (L τ : K) (h0 : 0 ≤ L) (h1 : L ≤ τ) : 0 ≤ L / τ ∧ L / τ ≤ 1 ∧ L / τ * τ = L := by
+  have hτ0 : 0 ≤ τ := le_trans h0 h1
+  rcases eq_or_lt_of_le hτ0 with hz | hpos
+  · have hL : L = 0 := le_antisymm (by rw [hz]; exact h1) h0
+    rw [← hz, hL]; simp
+  · exact ⟨div_nonneg h0 hτ0, (div_le_one hpos).mpr h1, div_mul_cancel₀ _ (ne_of_gt hpos)⟩
+
 /-- `JointData` from the closed form of the join, the unit tangents and the emitted join triangle -/
 theorem joint_data_of {e : Env K} {pt : Nat → P K} {o : Out K} (k : Nat)
-    (J : JClosed e pt k (psAt e pt (k + 1)) (nsAt e pt (k + 1)))
+    (J : JClosed e pt k (psAt e pt (k + 1)) (nsAt e pt (k + 1)) (lamAt e pt (k + 1)))
     (hu0 : (eT pt k).sqLen = 1) (hu1 : (eT pt (k + 1)).sqLen = 1) (hjoin : EmJoin o (jEP e pt (k + 1))) :
     ∃ ε c σ τ κ : K, JointData (EmTri o) e pt k ε c σ τ κ := by
   have hrot := rot_of_unit (eT pt k) (eT pt (k + 1)) hu0
@@ -238,6 +270,9 @@ theorem joint_data_of {e : Env K} {pt : Nat → P K} {o : Out K} (k : Nat)
   have htau : jtau pt k * (1 + (eT pt k).dot (eT pt (k + 1))) = (eT pt k).cross (eT pt (k + 1)) := by
     unfold jtau; exact div_mul_cancel₀ _ hcne
   obtain ⟨j1, j2⟩ := hjoin
+  have hL0 := lamAt_nonneg e pt (k + 1)
+  have hL1 := lamAt_le e pt k
+  generalize hLdef : lamAt e pt (k + 1) = L at J hL0 hL1
   generalize hps : psAt e pt (k + 1) = ps at J
   generalize hns : nsAt e pt (k + 1) = ns at J
   have hps' : (jEP e pt (k + 1)).pos.single.isSome = ps := hps
@@ -247,17 +282,24 @@ theorem joint_data_of {e : Env K} {pt : Nat → P K} {o : Out K} (k : Nat)
     have hpt : ps = true := J.inner_pos hx
     subst hpt
     have htau0 : 0 ≤ jtau pt k := by unfold jtau; exact div_nonneg hx (le_of_lt hc)
-    refine ⟨1, (eT pt k).dot (eT pt (k + 1)), (eT pt k).cross (eT pt (k + 1)), jtau pt k, if ns then 1 else 0,
-      by ring, htau.symm, hcs, hc, hx, by cases ns <;> simp, by rw [one_mul]; exact hrot, (abs_of_nonneg htau0).symm,
-      ?_, ?_, ?_⟩
-    · intro y; rw [hps, hns]; cases ns <;> simp <;> ring
-    · intro y; rw [hps, hns]; cases ns <;> simp <;> ring
+    rw [abs_of_nonneg htau0] at hL1
+    obtain ⟨k0, k1, k2⟩ := kappa_div L (jtau pt k) hL0 hL1
+    refine ⟨1, (eT pt k).dot (eT pt (k + 1)), (eT pt k).cross (eT pt (k + 1)), jtau pt k, if ns then 1 else L / jtau pt k,
+      by ring, htau.symm, hcs, hc, hx, by cases ns <;> simp [k0, k1], by rw [one_mul]; exact hrot,
+      (abs_of_nonneg htau0).symm, ?_, ?_, ?_⟩
+    · intro y; rw [hps, hns, hLdef]; cases ns
+      · simp only [Bool.false_eq_true, if_false, if_true]; linear_combination ((1 - y) / 2) * k2
+      · simp only [if_true]; ring
+    · intro y; rw [hps, hns, hLdef]; cases ns
+      · simp only [Bool.false_eq_true, if_false, if_true]; linear_combination (-(1 - y) / 2) * k2
+      · simp only [if_true]; ring
     · intro hk0 q hq
       have hnf : ns = false := by
         cases ns
         · rfl
         · simp at hk0
       subst hnf
+      simp only [Bool.false_eq_true, if_false] at hq
       have hnone : (jEP e pt (k + 1)).neg.single = none := by
         cases hh : (jEP e pt (k + 1)).neg.single with
         | none => rfl
@@ -265,16 +307,15 @@ theorem joint_data_of {e : Env K} {pt : Nat → P K} {o : Out K} (k : Nat)
       have ht := j1 hps' hnone
       rw [J.negPrev, J.sPosPrev, J.negNext] at ht
       refine ⟨_, ht, ?_⟩
-      have e1 : pt (k + 1) - (perp (eT pt k)).smul (1 * e.hwFw) + (eT pt k).smul ((if false = true then 1 else 0) * jtau pt k * e.hwFw)
-          = pt (k + 1) - (perp (eT pt k)).smul e.hwFw := by
-        apply P.ext' <;> simp only [geom, Bool.false_eq_true, if_false] <;> ring
+      have e1 : pt (k + 1) - (perp (eT pt k)).smul (1 * e.hwFw) + (eT pt k).smul (L / jtau pt k * jtau pt k * e.hwFw)
+          = pt (k + 1) - (perp (eT pt k)).smul e.hwFw + (eT pt k).smul (e.hwFw * (if false = true then 0 else L)) := by
+        rw [k2]; apply P.ext' <;> simp only [geom, Bool.false_eq_true, if_false] <;> ring
       have e2 : pt (k + 1) + (perp (eT pt k)).smul (1 * e.hwFw) - (eT pt k).smul (jtau pt k * e.hwFw)
-          = pt (k + 1) + (perp (eT pt k)).smul e.hwFw + (eT pt k).smul (e.hwFw * (if true = true then -jtau pt k else 0)) := by
+          = pt (k + 1) + (perp (eT pt k)).smul e.hwFw + (eT pt k).smul (e.hwFw * (if true = true then -jtau pt k else L)) := by
         apply P.ext' <;> simp only [geom, if_true] <;> ring
-      have e3 : pt (k + 1) - (perp (eT pt (k + 1))).smul (1 * e.hwFw)
-            - (eT pt (k + 1)).smul ((if false = true then 1 else 0) * jtau pt k * e.hwFw)
-          = pt (k + 1) - (perp (eT pt (k + 1))).smul e.hwFw := by
-        apply P.ext' <;> simp only [geom, Bool.false_eq_true, if_false] <;> ring
+      have e3 : pt (k + 1) - (perp (eT pt (k + 1))).smul (1 * e.hwFw) - (eT pt (k + 1)).smul (L / jtau pt k * jtau pt k * e.hwFw)
+          = pt (k + 1) - (perp (eT pt (k + 1))).smul e.hwFw + (eT pt (k + 1)).smul (e.hwFw * (if false = true then 0 else -L)) := by
+        rw [k2]; apply P.ext' <;> simp only [geom, Bool.false_eq_true, if_false] <;> ring
       rw [e1, e2, e3] at hq
       exact hq
   · -- a right turn: the inside is the negative side
@@ -282,18 +323,25 @@ theorem joint_data_of {e : Env K} {pt : Nat → P K} {o : Out K} (k : Nat)
     have hnt : ns = true := J.inner_neg hx'
     subst hnt
     have htau0 : jtau pt k < 0 := by unfold jtau; exact div_neg_of_neg_of_pos hx' hc
-    refine ⟨-1, (eT pt k).dot (eT pt (k + 1)), -(eT pt k).cross (eT pt (k + 1)), -jtau pt k, if ps then 1 else 0,
-      by ring, by linear_combination htau, by linear_combination hcs, hc, by linarith, by cases ps <;> simp,
+    rw [abs_of_neg htau0] at hL1
+    obtain ⟨k0, k1, k2⟩ := kappa_div L (-jtau pt k) hL0 hL1
+    refine ⟨-1, (eT pt k).dot (eT pt (k + 1)), -(eT pt k).cross (eT pt (k + 1)), -jtau pt k, if ps then 1 else L / -jtau pt k,
+      by ring, by linear_combination htau, by linear_combination hcs, hc, by linarith, by cases ps <;> simp [k0, k1],
       by rw [show (-1 : K) * -(eT pt k).cross (eT pt (k + 1)) = (eT pt k).cross (eT pt (k + 1)) by ring]; exact hrot,
       (abs_of_neg htau0).symm, ?_, ?_, ?_⟩
-    · intro y; rw [hps, hns]; cases ps <;> simp <;> ring
-    · intro y; rw [hps, hns]; cases ps <;> simp <;> ring
+    · intro y; rw [hps, hns, hLdef]; cases ps
+      · simp only [Bool.false_eq_true, if_false, if_true]; linear_combination ((1 - y) / 2) * k2
+      · simp only [if_true]; ring
+    · intro y; rw [hps, hns, hLdef]; cases ps
+      · simp only [Bool.false_eq_true, if_false, if_true]; linear_combination (-(1 - y) / 2) * k2
+      · simp only [if_true]; ring
     · intro hk0 q hq
       have hpf : ps = false := by
         cases ps
         · rfl
         · simp at hk0
       subst hpf
+      simp only [Bool.false_eq_true, if_false] at hq
       have hnone : (jEP e pt (k + 1)).pos.single = none := by
         cases hh : (jEP e pt (k + 1)).pos.single with
         | none => rfl
@@ -301,16 +349,15 @@ theorem joint_data_of {e : Env K} {pt : Nat → P K} {o : Out K} (k : Nat)
       have ht := j2 hns' hnone
       rw [J.sNegPrev, J.posPrev, J.posNext] at ht
       refine ⟨_, ht, ?_⟩
-      have e1 : pt (k + 1) - (perp (eT pt k)).smul (-1 * e.hwFw) + (eT pt k).smul ((if false = true then 1 else 0) * -jtau pt k * e.hwFw)
-          = pt (k + 1) + (perp (eT pt k)).smul e.hwFw := by
-        apply P.ext' <;> simp only [geom, Bool.false_eq_true, if_false] <;> ring
+      have e1 : pt (k + 1) - (perp (eT pt k)).smul (-1 * e.hwFw) + (eT pt k).smul (L / -jtau pt k * -jtau pt k * e.hwFw)
+          = pt (k + 1) + (perp (eT pt k)).smul e.hwFw + (eT pt k).smul (e.hwFw * (if false = true then 0 else L)) := by
+        rw [k2]; apply P.ext' <;> simp only [geom, Bool.false_eq_true, if_false] <;> ring
       have e2 : pt (k + 1) + (perp (eT pt k)).smul (-1 * e.hwFw) - (eT pt k).smul (-jtau pt k * e.hwFw)
-          = pt (k + 1) - (perp (eT pt k)).smul e.hwFw + (eT pt k).smul (e.hwFw * (if true = true then jtau pt k else 0)) := by
+          = pt (k + 1) - (perp (eT pt k)).smul e.hwFw + (eT pt k).smul (e.hwFw * (if true = true then jtau pt k else L)) := by
         apply P.ext' <;> simp only [geom, if_true] <;> ring
-      have e3 : pt (k + 1) - (perp (eT pt (k + 1))).smul (-1 * e.hwFw)
-            - (eT pt (k + 1)).smul ((if false = true then 1 else 0) * -jtau pt k * e.hwFw)
-          = pt (k + 1) + (perp (eT pt (k + 1))).smul e.hwFw := by
-        apply P.ext' <;> simp only [geom, Bool.false_eq_true, if_false] <;> ring
+      have e3 : pt (k + 1) - (perp (eT pt (k + 1))).smul (-1 * e.hwFw) - (eT pt (k + 1)).smul (L / -jtau pt k * -jtau pt k * e.hwFw)
+          = pt (k + 1) + (perp (eT pt (k + 1))).smul e.hwFw + (eT pt (k + 1)).smul (e.hwFw * (if false = true then 0 else -L)) := by
+        rw [k2]; apply P.ext' <;> simp only [geom, Bool.false_eq_true, if_false] <;> ring
       rw [e1, e2, e3] at hq
       exact inTri_swap12 hq
 
@@ -343,7 +390,9 @@ theorem shift_bounds (e : Env K) (pt : Nat → P K) (n k : Nat) (hk : k < n) :
     · obtain ⟨k', rfl⟩ : ∃ k', k = k' + 1 := ⟨k - 1, by omega⟩
       rw [tauAbs_mid pt n k' hk]
       simp only [sA0, sA1, if_neg (Nat.succ_ne_zero k'), Nat.add_sub_cancel]
-      constructor <;> split_ifs <;> first | exact neg_le_abs _ | exact le_abs_self _ | exact abs_nonneg _
+      have hl := lamAt_nonneg e pt (k' + 1)
+      have ha := abs_nonneg (jtau pt k')
+      constructor <;> split_ifs <;> first | exact neg_le_abs _ | exact le_abs_self _ | linarith
   have hB : -tauAbs pt n (k + 1) ≤ sB0 e pt n k ∧ -tauAbs pt n (k + 1) ≤ sB1 e pt n k := by
     by_cases hl : k + 1 = n
     · have : (0 : K) ≤ capU e.o.endCap := capU_nonneg _
@@ -352,6 +401,7 @@ theorem shift_bounds (e : Env K) (pt : Nat → P K) (n k : Nat) (hk : k < n) :
       constructor <;> linarith
     · rw [tauAbs_mid pt n k (by omega)]
       simp only [sB0, sB1, if_neg hl]
+      have hl := lamAt_nonneg e pt (k + 1)
       constructor <;> split_ifs <;>
         first | exact neg_abs_le _ | (exact neg_le_neg (le_abs_self _)) | (have := abs_nonneg (jtau pt k); linarith)
   exact ⟨hA.1, hA.2, hB.1, hB.2⟩
@@ -377,7 +427,7 @@ theorem trapK {e : Env K} {eps : K} (h : CoverHyp e eps) {pt : Nat → P K} {n :
   obtain ⟨hL, _, hd⟩ := edge_eq h.sqrt_nonneg h.sqrt_sq pt k (regime_sq h hr k hk)
   obtain ⟨q1, q2⟩ := edge_quads h hr hE k hk
   obtain ⟨b1, b2, b3, b4⟩ := shift_bounds e pt n k hk
-  have hreg := hr.2.2.2.2.1 k hk
+  have hreg := hr.2.2.2.2 k hk
   have hw := h.hw
   have t0 := tauAbs_nonneg pt n k
   have t1 := tauAbs_nonneg pt n (k + 1)
@@ -447,13 +497,13 @@ theorem edge_cover {e : Env K} {eps : K} (h : CoverHyp e eps) {pt : Nat → P K}
         rw [hpt2]
         have hloN := D.loNext y'
         obtain ⟨b1, b2, b3, b4⟩ := shift_bounds e pt n (k + 1) hk1
-        have hreg := hr.2.2.2.2.1 (k + 1) hk1
+        have hreg := hr.2.2.2.2 (k + 1) hk1
         rw [tauAbs_mid pt n k hk1, ← D.tabs] at hreg
         have hT2 := tauAbs_nonneg pt n (k + 1 + 1)
         refine trapK h hr hE (k + 1) hk1 (e.hwFw * x') (ε * y') hzb hzb1 ?_ ?_
         · simp only [sA0, sA1, if_neg (Nat.succ_ne_zero k), Nat.add_sub_cancel]
-          have : e.hwFw * ((1 - ε * y') * (if nsAt e pt (k + 1) = true then -jtau pt k else 0)
-              + (1 + ε * y') * (if psAt e pt (k + 1) = true then jtau pt k else 0)) / 2
+          have : e.hwFw * ((1 - ε * y') * (if nsAt e pt (k + 1) = true then -jtau pt k else -lamAt e pt (k + 1))
+              + (1 + ε * y') * (if psAt e pt (k + 1) = true then jtau pt k else -lamAt e pt (k + 1))) / 2
               = e.hwFw * (τ * ((1 + y') - κ * (1 - y')) / 2) := by rw [← hloN]; ring
           rw [this]
           exact mul_le_mul_of_nonneg_left h3 (le_of_lt hw)
@@ -463,8 +513,8 @@ theorem edge_cover {e : Env K} {eps : K} (h : CoverHyp e eps) {pt : Nat → P K}
           nlinarith
       · rw [div_le_iff₀ hw]; linarith
       · rw [le_div_iff₀ hw]
-        have : e.hwFw * ((1 - u) * (if nsAt e pt (k + 1) = true then jtau pt k else 0)
-            + (1 + u) * (if psAt e pt (k + 1) = true then -jtau pt k else 0)) / 2
+        have : e.hwFw * ((1 - u) * (if nsAt e pt (k + 1) = true then jtau pt k else lamAt e pt (k + 1))
+            + (1 + u) * (if psAt e pt (k + 1) = true then -jtau pt k else lamAt e pt (k + 1))) / 2
             = -(τ * ((1 + ε * u) - κ * (1 - ε * u)) / 2) * e.hwFw := by rw [← hhiP]; ring
         rw [this] at hhi'
         linarith
@@ -505,7 +555,7 @@ theorem edge_cover {e : Env K} {eps : K} (h : CoverHyp e eps) {pt : Nat → P K}
       rw [hpt2]
       have hhiP := D.hiPrev y'
       obtain ⟨b1, b2, b3, b4⟩ := shift_bounds e pt n k' (by omega)
-      have hreg := hr.2.2.2.2.1 k' (by omega)
+      have hreg := hr.2.2.2.2 k' (by omega)
       rw [tauAbs_mid pt n k' hk1, ← D.tabs] at hreg
       have hT0 := tauAbs_nonneg pt n k'
       have hnl : ¬ (k' + 1 = n) := by omega
@@ -515,16 +565,16 @@ theorem edge_cover {e : Env K} {eps : K} (h : CoverHyp e eps) {pt : Nat → P K}
         have := mul_le_mul_of_nonneg_left h4 (le_of_lt hw)
         nlinarith
       · simp only [sB0, sB1, if_neg hnl]
-        have : e.hwFw * ((1 - ε * y') * (if nsAt e pt (k' + 1) = true then jtau pt k' else 0)
-            + (1 + ε * y') * (if psAt e pt (k' + 1) = true then -jtau pt k' else 0)) / 2
+        have : e.hwFw * ((1 - ε * y') * (if nsAt e pt (k' + 1) = true then jtau pt k' else lamAt e pt (k' + 1))
+            + (1 + ε * y') * (if psAt e pt (k' + 1) = true then -jtau pt k' else lamAt e pt (k' + 1))) / 2
             = -(e.hwFw * (τ * ((1 + y') - κ * (1 - y')) / 2)) := by
           linear_combination e.hwFw * hhiP
         rw [this]
         have := mul_le_mul_of_nonneg_left h3 (le_of_lt hw)
         linarith
     · rw [div_le_iff₀ hw]
-      have : e.hwFw * ((1 - u) * (if nsAt e pt (k' + 1) = true then -jtau pt k' else 0)
-          + (1 + u) * (if psAt e pt (k' + 1) = true then jtau pt k' else 0)) / 2
+      have : e.hwFw * ((1 - u) * (if nsAt e pt (k' + 1) = true then -jtau pt k' else -lamAt e pt (k' + 1))
+          + (1 + u) * (if psAt e pt (k' + 1) = true then jtau pt k' else -lamAt e pt (k' + 1))) / 2
           = τ * ((1 + ε * u) - κ * (1 - ε * u)) / 2 * e.hwFw := by rw [← hloN]; ring
       rw [this] at hlo'
       linarith
@@ -537,8 +587,25 @@ variable {K : Type} [Field K] [LinearOrder K] [IsStrictOrderedRing K] [Transc K]
 /-- in the regime the run has the emission shape of `run_emitted` -/
 theorem regime_emitted {e : Env K} {eps : K} (h : CoverHyp e eps) (store : Nat → List K) {pt : Nat → P K} {n : Nat}
     (hn : 1 ≤ n) (hr : Regime e eps pt n) : Emitted e pt n (runEvents e store (polyEvs pt n)).st.out := by
-  refine run_emitted e store h.fw ?_ h.scap h.ecap (ne_of_gt h.hw) pt n hn hr.1 ?_
-  · rcases h.join with hj | hj | hj <;> rw [hj] <;> decide
+  have hu0 : (normalize (pt 0 - pt 1)).sqLen = 1 := by
+    obtain ⟨_, hunit, _⟩ := edge_eq h.sqrt_nonneg h.sqrt_sq pt 0 (regime_sq h hr 0 (by omega))
+    have ht : normalize (pt (0 + 1) - pt 0) = eT pt 0 := rfl
+    have hswap : normalize (pt 0 - pt (0 + 1)) = (eT pt 0).smul (-1) := by rw [normalize_swap, ht]
+    show (normalize (pt 0 - pt (0 + 1))).sqLen = 1
+    rw [hswap]; simp only [geom] at hunit ⊢; linear_combination hunit
+  have hun : (normalize (pt n - pt (n - 1))).sqLen = 1 := by
+    obtain ⟨n', rfl⟩ : ∃ n', n = n' + 1 := ⟨n - 1, by omega⟩
+    obtain ⟨_, hunit, _⟩ := edge_eq h.sqrt_nonneg h.sqrt_sq pt n' (regime_sq h hr n' (by omega))
+    exact hunit
+  have hs : CapOK e.o.startCap (pt 0 - pt 1) := by
+    rcases h.scap with a | a
+    · exact Or.inl a
+    · exact Or.inr ⟨a, hu0⟩
+  have he : CapOK e.o.endCap (pt n - pt (n - 1)) := by
+    rcases h.ecap with a | a
+    · exact Or.inl a
+    · exact Or.inr ⟨a, hun⟩
+  refine run_emittedG e store h.fw h.roundOK (ne_of_gt h.hw) pt n hn hs he hr.1 ?_
   · intro i h1 h2
     obtain ⟨i', rfl⟩ : ∃ i', i = i' + 1 := ⟨i - 1, by omega⟩
     exact hr.2.2.2.1 i' (by omega)
